@@ -44,7 +44,16 @@ Record obsrec := mkobs {
   o_dense : bool                       (* sparse_templates.cols is None: dense storage, the storage this model is about
                                           (the data set holds a dense templates file and no template_ind file) *)
 }.
-Inductive observed := ObsLoaded (o : obsrec) | ObsCrash.
+(* stage 6: the curation goes on ON THE LOADED OBJECT: model.spike_clusters is updated (in place or rebound) to h_sc and
+   the object is queried again -- get_merge_map() and get_cluster_mean_waveforms(c, unwhiten) for every id with spikes *)
+Record hobs := mkhobs {
+  h_sc : list Z;                       (* the cluster vector the object now holds *)
+  h_mm : list (Z * list Z);            (* get_merge_map()[0].items() *)
+  h_nan : list Z;                      (* get_merge_map()[1] *)
+  h_mean_w : list mobs;                (* unwhiten=False, every cluster id with spikes *)
+  h_mean_u : list mobs                 (* unwhiten=True *)
+}.
+Inductive observed := ObsLoaded (o : obsrec) | ObsCrash | ObsHist (o : obsrec) (hs : list hobs) | ObsHistCrash (o : obsrec).
 Record case := { cid : Z; cin : input; cobs : observed }.
 
 Definition flag (code : Z) (ok : bool) : list Z := if ok then [] else [code].
@@ -249,7 +258,10 @@ Definition model_mean_b (d : dset) (unw : bool) (mo : mobs) : bool :=
   end.
 
 Definition model_data_b (d : dset) (m : loaded) (o : obsrec) : bool :=
-  all2b (fun crow orow => if l_curated m && negb (tie_free d (fst crow))
+  (* stage 6: tie_free costs n_templates^2 counts; an id stemming from fewer than two templates is tie-free
+     (vm_compute is call-by-value: andb evaluates both arguments, hence the nested ifs) *)
+  all2b (fun crow orow => if (if l_curated m then if (2 <=? length (tset d (fst crow)))%nat then negb (tie_free d (fst crow))
+                                                  else false else false)
                           then (length (snd crow) =? length orow)%nat else mat_eqb (snd crow) orow)
         (combine (zrange 0 (length (l_data m))) (l_data m)) (o_data o).
 
@@ -291,6 +303,33 @@ Definition check_tie (d : dset) (m : loaded) (o : obsrec) : list Z :=
       flag 26 (wok_w && wok_u && mean_fns_wit_b d false (o_tch_w o) (o_mean_w o) &&
                mean_fns_wit_b d true (o_tch_u o) (o_mean_u o)).
 
+(* ---------- stage 6: a later stage of the curation on the same object ---------- *)
+(* the data set with the cluster vector of the stage: the statement's clauses are about the CURRENT (spike_templates,
+   spike_clusters) pair, so every clause on get_merge_map / get_cluster_mean_waveforms is judged on with_sc d (h_sc h)
+   (C08_merge_map, C08_mean_fn are theorems for every pair) *)
+Definition with_sc (d : dset) (sc : list Z) : dset :=
+  mkds (d_st d) sc (d_tmpl d) (d_px d) (d_py d) (d_shanks d) (d_wmi d).
+Definition check_stage (d : dset) (o : obsrec) (h : hobs) : list Z :=
+  let d2 := with_sc d (h_sc h) in
+  if negb (in_regime_base d2) then [3] else
+  match merge_map (d_st d2) (d_sc d2) with
+  | None => [3]
+  | Some mm =>
+      let det := boundary_ok d in
+      let g1 := all2b (fun k kv => (k =? fst kv)) (zrange 0 (length mm)) (h_mm h) &&
+                all2b zlist_eqb mm (map snd (h_mm h)) && zlist_eqb (nan_from 0 mm) (h_nan h) &&
+                (if det then forallb (model_mean_b d2 false) (h_mean_w h) && forallb (model_mean_b d2 true) (h_mean_u h)
+                 else true) in
+      flag 1 g1 ++
+      flag 21 (mm_b (d_st d2) (d_sc d2) (h_mm h)) ++ flag 22 (nan_b (d_sc d2) (h_nan h)) ++
+      flag 26 (if det then mean_fns_b d2 false (h_mean_w h) && mean_fns_b d2 true (h_mean_u h)
+               else wit_ok d false (o_tch_w o) && wit_ok d true (o_tch_u o) &&
+                    mean_fns_wit_b d2 false (o_tch_w o) (h_mean_w h) && mean_fns_wit_b d2 true (o_tch_u o) (h_mean_u h))
+  end.
+
+Definition check_loaded (d : dset) (m : loaded) (o : obsrec) : list Z :=
+  if boundary_ok d then check_det d m o else check_tie d m o.
+
 Definition check (c : case) : list Z :=
   match cin c with InLoad d =>
   if negb (in_regime_t d) then [3] else
@@ -298,8 +337,12 @@ Definition check (c : case) : list Z :=
   | None, _ => [3]
   | Some _, ObsCrash => [1; 20]
   | Some m, ObsLoaded o =>
+      if negb (o_inputs_ok o) then [3] else check_loaded d m o
+  | Some m, ObsHist o hs =>
       if negb (o_inputs_ok o) then [3] else
-      if boundary_ok d then check_det d m o else check_tie d m o
+      nodup Z.eq_dec (check_loaded d m o ++ flat_map (check_stage d o) hs)
+  | Some m, ObsHistCrash o =>
+      if negb (o_inputs_ok o) then [3] else nodup Z.eq_dec (check_loaded d m o ++ [1; 20])
   end end.
 
 (* ---------- stage 5: non-vacuity of legal_chans ---------- *)
